@@ -249,3 +249,60 @@ def hash_cache_kinds(root) -> list[str]:
     """kinds of nodes that carry a cached hash right now"""
     return sorted({eqterm.kind_of(n) for n in eqterm.all_nodes(root)
                    if "_hash_value" in getattr(n, "__dict__", {})})
+
+
+def unexplained_build_errors(ctx, lean_file: str, located: set[str]) -> list[str]:
+    """error locations of the last failed `lake build` that are NOT table
+    obligations of `lean_file` for which the Python evaluation found a failing
+    row (`located` = names of those obligations)"""
+    import re
+    errs = (ctx.coverage.get("lean_build_errors") or [{}])[-1].get("where", [])
+    try:
+        lines = (common.LEAN_DIR / lean_file).read_text().split("\n")
+    except OSError:
+        return list(errs) or ["?"]
+    out = []
+    for w in errs:
+        f, ln, _ = w.rsplit(":", 2)
+        if not f.endswith(lean_file):
+            out.append(w)
+            continue
+        name = None
+        for k in range(int(ln) - 1, -1, -1):
+            m = re.match(r"\s*theorem\s+(\S+)", lines[k]) if k < len(lines) else None
+            if m:
+                name = m.group(1)
+                break
+        if name not in located:
+            out.append(f"{w} ({name})")
+    return out if errs else ["no error location reported"]
+
+
+def replay_xproc(ctx, r: dict) -> int:
+    """re-run one fresh-interpreter case: graph `index` of family `seed` under the stored hash seed"""
+    import json as _json
+    from pytato.analysis import PytatoKeyBuilder
+    g = r["case"]["graph"]
+    hs = r["case"]["hash_seed"]
+    n = g["index"] + 1
+    keyb = PytatoKeyBuilder()
+    pickles = {}
+    here = {}
+    for i in range(n):
+        e = eqdags.build(g["seed"], i)
+        if i == g["index"]:
+            here = {"key": keyb(e), "hash_cached_kinds_before_pickling": None}
+        hash(e)
+        pickles[i] = pickle.dumps(e)
+        if i == g["index"]:
+            here["hash_cached_kinds_before_pickling"] = hash_cache_kinds(e)
+            keep = e
+    out = run_children(ctx, g["seed"], n, pickles, [hs], tag="replay")[0]
+    res = out["results"][g["index"]]
+    q = pickle.loads(out["pickles"][g["index"]])
+    print("case            :", _json.dumps(r["case"]))
+    print("stored (child)  :", _json.dumps(r.get("child_report") or r.get("keys_in_child")))
+    print("observed (child):", _json.dumps({k: v for k, v in res.items() if not k.startswith("node_")}))
+    print("observed (here) :", _json.dumps({**here, "child_pickle_vs_local": observe(keep, q, keyb)}))
+    print("expected        : equal graphs, equal hashes, no `_hash_value` after unpickling, one key everywhere")
+    return 0
